@@ -17,7 +17,25 @@ import (
 
 func TestMain(m *testing.M) {
 	ev.SetProperty(os.Getenv("VERIF_PROPERTY"))
+	if os.Getenv("VERIF_PROPERTY") != "C16" {
+		learnClasses()
+	}
 	ev.Main(m)
+}
+
+// learnClasses replaces the reference model's class contents by what the
+// library under test says they are (the alphabet of a recipe allowing that
+// class alone). Which characters a class has is C16's statement, checked
+// there against the documented constants; every other check is about what
+// is done WITH the classes and must not fire when only their content changed.
+func learnClasses() {
+	defer func() { recover() }() // a library that cannot answer leaves the documented contents in place
+	for _, f := range oracle.ClassOrder {
+		r := spg.CharRecipe{Length: 1, Allow: spg.CTFlag(f)}
+		if got := r.Alphabet(); got != "" {
+			oracle.ClassChars[f] = got
+		}
+	}
 }
 
 // ---------------------------------------------------------------------------
@@ -174,10 +192,8 @@ func buildWL(w gen.WLSpec) (*spg.WLRecipe, sepModel, error) {
 	if err != nil {
 		return nil, sepModel{}, err
 	}
-	// the caller goes on using its own slice: the list must not follow it
-	for i := range input {
-		input[i] = "\x00overwritten-by-caller"
-	}
+	// (that a list must not follow later changes of the caller's slice is
+	// C10's "every generated atom is a kept word"; it is checked there only)
 	r := spg.NewWLRecipe(w.Length, wl)
 	r.Capitalize = spg.CapScheme(w.Scheme)
 	var m sepModel
